@@ -78,7 +78,7 @@ func genC01(r *rand.Rand, tier string, in *input, c02 bool) {
 	case 3:
 		in.Voters, in.Quorum = 4, 3
 	}
-	if r.IntN(3) == 0 {
+	if r.IntN(3) == 0 || (c02 && r.IntN(4) == 0) {
 		in.Store = "pebble"
 	}
 	in.Retained = 2 + r.IntN(3)
@@ -113,6 +113,7 @@ func genC01(r *rand.Rand, tier string, in *input, c02 bool) {
 				op.Lose = p.faultNodes(1, p.leader)
 			}
 			p.add(op)
+			p.leo++
 		case x < 49 && len(p.cmds) > 0: // retry
 			p.add(p.commitOp(p.leader, p.cur, p.cmds[r.IntN(len(p.cmds))]))
 		case x < 57: // take a node down (at most N-Q at a time)
@@ -203,6 +204,48 @@ func genC01(r *rand.Rand, tier string, in *input, c02 bool) {
 			p.add(iop)
 			p.noteInstall(next, a)
 			p.add(p.installOp(next, a)) // the retry without the fault
+		case x < 95 && in.Store == "pebble" && maxDown > 0 && in.Voters >= 3: // orphan tail of equal length + allocator-issued ids:
+			// the leader's LOCAL write fails while exactly one follower F stores X (never acknowledged); F is then
+			// partitioned, another node becomes leader and writes its barrier at X's index; F returns and the new
+			// leader commits Y with ServerAllocatedMessageIDs: F's log end equals Y's base (sequencedFresh fast path)
+			for v := uint64(1); v <= uint64(in.Voters); v++ {
+				p.setDown(v, false)
+			}
+			if p.leo == 0 { // make sure the log is non-empty so that the next leader writes a barrier
+				c0 := p.newCmd()
+				c0.sa = true
+				p.add(p.commitOp(p.leader, p.cur, c0))
+				p.leo++
+			}
+			old := p.leader
+			f := p.otherNode(old)
+			cx := p.newCmd()
+			cx.sa = true
+			xop := p.commitOp(old, p.cur, cx)
+			for v := uint64(1); v <= uint64(in.Voters); v++ {
+				if v != f {
+					xop.Drop = append(xop.Drop, v) // includes the leader: its local store write fails
+				}
+			}
+			p.add(xop)
+			p.setDown(f, true)
+			next := p.otherNode(old)
+			for tries := 0; next == f && tries < 16; tries++ {
+				next = p.otherNode(old)
+			}
+			if next == f {
+				continue
+			}
+			a := p.nextTerm()
+			p.add(opIn{K: "restart", Node: next})
+			p.add(p.installOp(next, a))
+			p.noteInstall(next, a)
+			p.setDown(f, false)
+			for k2 := 0; k2 < 1+r.IntN(2); k2++ {
+				cy := p.newCmd()
+				cy.sa = true
+				p.add(p.commitOp(next, a, cy))
+			}
 		case x < 96 && c02: // follower gap repair by exact replays
 			f := p.otherNode(p.leader)
 			from := uint64(1 + r.IntN(4))
